@@ -131,6 +131,14 @@ CLAIMED = {
             "Trusted: TLC, harness, independent zone reader. Folds whose two offsets round to the same minute (a few "
             "seconds wide) cannot be told apart by any RFC 9557 text and are skipped.",
             "TLA+ text reader + zone semantics evaluated by TLC over implementation traces", "DESIGN.md §5 C09"),
+    "C15": ("model_checking",
+            "Trace_Dur.tla contains an independent ISO 8601 duration reader (byte values -> BigInt unit values) and the "
+            "documented relations between a value and its friendly-format round trip per printer configuration; TLC "
+            "evaluates them on every printed span and duration: ISO text must denote the original, friendly text must be "
+            "accepted by the parser under every configuration, identical for lossless configurations, within one unit of the "
+            "last printed digit otherwise.",
+            "No independent reader for the friendly format. Known finding D12 (i64::MIN seconds) is listed in KNOWN_FINDINGS.txt.",
+            "TLA+ text reader and round-trip relations evaluated by TLC over implementation traces", "DESIGN.md §5 C15"),
 }
 
 PENDING_REASON = "check not built yet in this round (planned, see DESIGN.md §5); no claim is made"
